@@ -16,9 +16,9 @@ def parse_lock(tok):
 
 def parse_req(line):
     f = line.split()
-    if f[0] != "req":
+    if f[0] not in ("req", "start"):
         return None
-    return dict(conn=int(f[1]), islock=(f[2] == "L"), req=int(f[3]), flag=int(f[4]), lockid=int(f[5]), key=int(f[6]), tflag=int(f[7]),
+    return dict(sched=(f[0] == "start"), conn=int(f[1]), islock=(f[2] == "L"), req=int(f[3]), flag=int(f[4]), lockid=int(f[5]), key=int(f[6]), tflag=int(f[7]),
                 timeout=int(f[8]), eflag=int(f[9]), expried=int(f[10]), count=int(f[11]), rcount=int(f[12]), data=f[13])
 
 
@@ -138,6 +138,8 @@ def mon_c01(tr):
                 # holds ended inside the action: the oldest holder at grant time is one of the holders seen before or
                 # after the action; be conservative (no false alarm): take the most permissive candidate
                 cands = [h["count"] for h in (live_holders(kb) if kb else []) + (live_holders(ka) if ka else []) if h["req"] != rp["req"]]
+                # holders whose command was replaced by a re-lock / update later in the same action
+                cands += [r2["count"] for r2 in st["replies"] if r2["result"] == 0 and r2["req"] != rp["req"] and tr.reqs.get(r2["req"], {}).get("key") == rq["key"]]
                 oldest = max(cands) if cands else 0xffff
             unlimited = (req_count == 0xffff and oldest == 0xffff and before >= 0xffff)
             if (before > req_count or before > oldest) and not unlimited:
@@ -281,7 +283,9 @@ def mon_c04(tr):
     for i, st in enumerate(tr.steps):
         if not st["after"]:
             continue
-        was = stuck_keys(st["before"])
+        if st["after"].get("thr", 0) > 0:
+            continue      # not a quiescent moment: a wake-up pass may still be parked
+        was = stuck_keys(st["before"]) if st["before"].get("thr", 0) == 0 else {}
         for key, (k, head) in stuck_keys(st["after"]).items():
             if key in was and was[key][1]["req"] == head["req"]:
                 continue        # reported when it first appeared
